@@ -210,8 +210,32 @@ def ack_script(rng):
     return "client " + " | ".join(s.ops)
 
 
+def fuzz_script(rng, tier):
+    """network input no well-behaved peer sends: a generated script whose peer bytes are mutated, truncated or random"""
+    from gens.chunk import mutate
+    base = gen_script(rng, tier) if False else gen_script(rng)
+    ops = base.split(" | ")
+    out = []
+    for op in ops:
+        t = op.split()
+        if t[0] == "in" and rng.chance(1, 2):
+            data = bytes.fromhex(t[3]) if t[3] != "-" else b""
+            k = rng.below(4)
+            if k == 0:
+                data = rng.bytes(rng.range(1, 60))
+            else:
+                for _ in range(rng.range(1, 3)):
+                    data = mutate(rng, data)
+            out.append("in %s %s %s" % (t[1], t[2], hexs(data)))
+        else:
+            out.append(op)
+    return " | ".join(out)
+
+
 def generate(rng, tier):
     n = 700 if tier == "quick" else 25000
+    for _ in range(n // 3):
+        yield fuzz_script(rng, tier)
     for _ in range(n):
         yield gen_script(rng)
     for _ in range(n // 4):
